@@ -57,12 +57,16 @@ func (inv *Invoice) scenarioSummary() *tax.ScenarioSummary {
 func (inv *Invoice) removePreviousScenarioNotes(ss *tax.ScenarioSet) {
 	for _, sn := range ss.Notes() {
 		n := org.NoteFromScenario(sn)
-		for i, n2 := range inv.Notes {
-			if n.SameAs(n2) {
-				// remove from array
-				inv.Notes = append(inv.Notes[:i], inv.Notes[i+1:]...)
+		// build a new list instead of removing while iterating, which would
+		// skip the element that follows each match
+		var notes []*org.Note
+		for _, n2 := range inv.Notes {
+			if n2 != nil && n.SameAs(n2) {
+				continue
 			}
+			notes = append(notes, n2)
 		}
+		inv.Notes = notes
 	}
 }
 
